@@ -1961,6 +1961,7 @@ const int SP_LINK_VALUE_OFFSET = 0;
 const int SP_RETURN_VALUE_OFFSET = 1;
 const int FB_PARAM_OFFSET_FUNC = 2;
 const int FB_PARAM_OFFSET_PROC = 1;
+const int START_FRAME_SIZE = 3;
 
 enum class Reg { A, B };
 
@@ -2803,8 +2804,10 @@ public:
       auto token = instr->getToken();
       switch (token) {
       case hexasm::Token::SP_VALUE: {
-        // SP value.
-        cb.genInstrData(MAX_ADDRESS - cg.getGlobalsOffset() - 1);
+        // SP value. The start-up code has no frame of its own, so leave room
+        // above the initial stack pointer for the words it uses: sp[0] holds
+        // main's return address and sp[2] the argument of the exit system call.
+        cb.genInstrData(MAX_ADDRESS - cg.getGlobalsOffset() - START_FRAME_SIZE);
         // Emit data directives for globals, constants and strings.
         for (auto &data : cg.getCodeBuffer().getData()) {
           cb.insertInstr(std::move(data));
@@ -3034,7 +3037,7 @@ public:
     auto stackPointer = dynamic_cast<hexasm::Data*>(directives[1].get())->getValue();
     outs << boost::format("Memory range 0x%x - 0x%x\n") % 0 % MAX_ADDRESS;
     outs << boost::format("Stack pointer initialised to 0x%x\n") % stackPointer;
-    outs << boost::format("Arrays allocated 0x%x - 0x%x\n") % (stackPointer+1) % MAX_ADDRESS;
+    outs << boost::format("Arrays allocated 0x%x - 0x%x\n") % (stackPointer+START_FRAME_SIZE) % MAX_ADDRESS;
     outs << "\n";
   }
   void visitPre(Proc &proc) {
